@@ -283,23 +283,27 @@ def block_tdvp(ctx, tm, psi, as_mpdm=False):
     label = tm.label + (":mpdm" if as_mpdm else "") + (":complex" if np.iscomplexobj(v0) else ":real")
     normalize = bool(rng.random() < 0.5)
 
-    # --- PS / PS2: at full bond dimension all projectors telescope: exact for ANY step size
+    # --- PS / PS2: symmetric second-order splitting.  Without quantum numbers and at full bond
+    # dimension consecutive projectors coincide pairwise, the splitting is exact for any step and the
+    # error sits at the solver floor ("floor"); in a symmetry sector it is second order.
     for kind in ("ps", "ps2"):
-        for solver, tol in (("krylov", 1e-8), ("RK45", 1e-7)):
+        for solver, floor in (("krylov", 1e-8), ("RK45", 1e-7)):
             spec = dict(kind=kind, solver=solver)
             nm = name_of(spec)
-            N = int(rng.integers(1, 4))
             try:
-                out = evolve_n(psi, mpo, T, N, spec, max(big, 64), normalize=normalize)
-                err = float(np.linalg.norm(dense_state(out) - ref))
+                errs = []
+                for N in (1, 2, 4):
+                    out = evolve_n(psi, mpo, T, N, spec, max(big, 64), normalize=normalize)
+                    errs.append(float(np.linalg.norm(dense_state(out) - ref)))
             except Exception as e:
-                run.violation(f"{nm}:full-bond:exception:{exc_sig(e)}", replay_base(tm, v0, spec, T=T, error=repr(e)))
+                run.violation(f"{nm}:order:exception:{exc_sig(e)}", replay_base(tm, v0, spec, T=T, error=repr(e)))
                 continue
-            ctx.evald(("exact", label, nm), moved)
-            run.count(f"exact:{nm}")
-            if not err <= tol * nv:
-                run.violation(f"{nm}:full-bond", replay_base(tm, v0, spec, T=T, steps=N, error=err, tol=tol,
-                                                              normalize=normalize, mpdm=as_mpdm))
+            verdict, obs = order_verdict(errs, 2, floor * nv)
+            ctx.evald(("order", label, nm), moved)
+            run.count(f"order:{nm}:{verdict}")
+            if verdict == "bad":
+                run.violation(f"{nm}:order", replay_base(tm, v0, spec, T=T, steps=[1, 2, 4], errors=errs, observed_order=obs,
+                                                          advertised=2, normalize=normalize, mpdm=as_mpdm, bond=list(psi.bond_dims)))
             if kind == "ps" and list(out.bond_dims) != list(psi.bond_dims):
                 run.violation("tdvp_ps:bond-dims-changed", replay_base(tm, v0, spec, before=list(psi.bond_dims),
                                                                         after=list(out.bond_dims)))
